@@ -93,4 +93,15 @@ PROPS = {
              "distinct = distinct (config, op list); non-trivial = has a handler and a DeleteRange",
         trusted_base=STORE_TB, assumptions=STORE_ASSUME,
     ),
+    "C11": dict(
+        props_files=["GoHeader/Props/C11.lean"], gen=[],
+        canon=lambda l: l.split(" => ")[0], nontrivial=lambda l: True, exhaustive=True,
+        rule="complete table: 14 payload kinds (valid, locally published with ValidatorData, failing Validate in 5 ways, undecodable in 4 ways, panics in decode / type assertion / Validate) "
+             "x 8 verifier outcomes (nil, bare/wrapped soft/hard *VerifyError, plain error, panic, no verifier before context end); real Subscriber.verifyMessage via the verif export; "
+             "distinct = distinct (payload, outcome); all non-trivial",
+        trusted_base=[KERNEL, HARNESS_TB, "verifyMessage is hand-modelled (defer/recover/select are outside the translator's subset); tie = the full table executed on the real validator",
+                      "modelled, not verified: go-libp2p-pubsub's handling of the returned ValidationResult (Accept=deliver+relay, Ignore=drop without penalty, Reject=drop+penalise)"],
+        assumptions=["the harness' reading of what each payload kind does to extractHeader (Oracle/C11.lean extractOf?) is right",
+                     "pubsub invokes the validator with a context that ends (the 'unset' outcome uses an already-cancelled one)"],
+    ),
 }
